@@ -346,7 +346,8 @@ fn cmd_replay(args: &[String]) -> i32 {
         }
     };
     let verbose = flag(args, "--verbose");
-    let res = h.execute();
+    let findings = arg(args, "--findings").map(|f| known::Findings::load(&f));
+    let res = h.execute_with(findings.as_ref());
     if let Some(e) = &res.setup_error {
         println!("REPLAY setup-error {}", e);
         return 2;
